@@ -36,3 +36,17 @@ PROPS["C17"] = dict(
 )
 DESCR += [(r"c17_._intertwine_n(\d)", "resolver output of n addresses, each symbolically IPv4 or IPv6, through the two filters + intertwine; compared with reference ordering"),
           (r"c17_._intertwine_generic", "intertwine over two tagged sequences of symbolic lengths <=3")]
+
+PROPS["C11"] = dict(
+    filters={"quick": ["c11_q", "c11_qtwin"], "thorough": ["c11_"]},
+    timeout_s={"quick": 400, "thorough": 1800},
+    kernel=["ProxySettings::for_url", "ProxySettingsBuilder::{new,http_proxy,https_proxy,add_no_proxy_host,build}",
+            "ProxySettings::from_env", "get_env", "get_env_url", "url::Url::{host_str,scheme} on factory-built Urls"],
+    bounds="domain hosts of 1..6 symbolic bytes over {a,b,.,-}; 0..2 no-proxy entries of 0..5 symbolic bytes over {a,b,A,B,.,-} "
+           "(no leading dot); IPv4/IPv6 literal hosts with entries of 1..8 symbolic bytes; scheme, proxy presence, disable flag symbolic; unwind 12",
+    outside="non-ASCII hosts/entries (str::to_lowercase stubbed by an ASCII model); URLs outside the factory grammar; builder entries with a leading dot; suffix relation on IP literals",
+    stubs=["str::to_lowercase -> ASCII lowering", "Url built by the validated field mirror instead of Url::parse"],
+    assumptions=["Url factory validated natively against Url::parse (tools/urlfactory)"],
+)
+DESCR += [(r"c11_._forurl_h(\d)", "for_url on a domain host of symbolic bytes against symbolic no-proxy entries (shape in the name: h=host length, e=entry lengths)"),
+          (r"c11_._forurl_ip", "for_url on an IP-literal host against one symbolic no-proxy entry")]
